@@ -18,6 +18,9 @@ HANDLERS = {
     "mem_py": ("harness.py.mem_cmd", "run"),
     "il": ("harness.py.il_cmd", "run"),
     "irq": ("harness.py.irq_cmd", "run"),
+    "snap": ("harness.py.irq_cmd", "snap"),
+    "snapload": ("harness.py.irq_cmd", "snapload"),
+    "snapsave": ("harness.py.irq_cmd", "snapsave"),
     "asm": ("harness.py.asm_cmd", "asm"),
     "asm_seq": ("harness.py.asm_cmd", "asm_seq"),
     "reasm": ("harness.py.asm_cmd", "reasm"),
